@@ -24,7 +24,7 @@ ASSUMPTIONS = [
     "relations other than power-of-two scaling are compared to 1e-9 x (size of terms) for floats (summation order differs between the two executions), exactly for exact inputs",
     "the relations also hold for the documented non-Hermitian recurrence, so known finding F4 (C05) does not interfere",
 ]
-BUDGET = {"quick": dict(cases=500, seconds=75), "thorough": dict(cases=12000, seconds=540)}
+BUDGET = {"quick": dict(cases=500, seconds=300), "thorough": dict(cases=12000, seconds=540)}
 CASE_TIMEOUT = 150
 MONITORS = {"poison": True, "product": False, "solvers": False}
 MONITOR_VERDICTS = ("fp", "nonfinite", "write")
